@@ -690,7 +690,13 @@ func (k *c15) checkDay(run *c15Run, s *daySnap, mixed bool) {
 		}
 		tag := func(kind string) string {
 			if route == "table" {
-				return cellSig(kind, pad3(h.Texture), h.LD, parsedCorg(h), s.Grw)
+				// the cell is the one Hydro last computed: at input time with g.GRW = g.GW (mean / first record), and again
+				// with the level of the day on every day the table moves when the whole profile is on the table route (run.go:388-409)
+				gwOfCell := run.GW
+				if rebuiltFromTable { // otherwise the input-time values are restored from the backups (run.go:411-…)
+					gwOfCell = s.Grw
+				}
+				return cellSig(kind, pad3(h.Texture), h.LD, parsedCorg(h), gwOfCell)
 			}
 			return "run:" + kind + ":route=" + route
 		}
